@@ -460,13 +460,14 @@ theorem maintain_works_off {p : Params} (hq : NoQuirks p) {s : UState} (hi : Inv
   · exact Or.inl h
   · right; omega
 
-/-- The cache is within its capacity after `j` lookups if it held at most `j` batches of
-entries (whatever its excess was): `⌈n / batch⌉` operations work any excess off. -/
+/-- `get` and `contains_key`. -/
 def isLookup : Op → Bool
   | .get _ => true
   | .has _ => true
   | _ => false
 
+/-- After `j` lookups the cache is within its capacity or `j` full batches of entries have
+left. -/
 theorem lookups_work_off {P : Sketch → Prop} (L : SketchLaws P) {p : Params} (hq : NoQuirks p)
     (hsm : SmallSketch p) {c : Nat} (hcap : p.cap = some c) :
     ∀ (ops : List Op) (s : UState), Inv P p s → (∀ op ∈ ops, isLookup op = true) →
@@ -511,6 +512,8 @@ theorem lookups_work_off {P : Sketch → Prop} (L : SketchLaws P) {p : Params} (
         rw [Nat.add_mul]
         omega
 
+/-- The cache is within its capacity after `j` lookups if it held at most `j` batches of
+entries (whatever its excess was): `⌈n / batch⌉` operations work any excess off. -/
 theorem lookups_work_off' {P : Sketch → Prop} (L : SketchLaws P) {p : Params} (hq : NoQuirks p)
     (hsm : SmallSketch p) {c : Nat} (hcap : p.cap = some c) (ops : List Op) (s : UState)
     (hi : Inv P p s) (hall : ∀ op ∈ ops, isLookup op = true)
